@@ -107,6 +107,8 @@ def dump_real(objs, codec, encoding, how, tmpdir):
     cwd = None
     if how in ('path', 'bare'):
         target = os.path.join(tmpdir, _name('dump'))
+        with open(target, 'wb') as f:          # an earlier export is there already: it is replaced
+            f.write(b'{"stale": 1}\n' * 3)
         if how == 'bare':
             # a file name without a directory part, relative to the working directory
             cwd = os.getcwd()
@@ -384,7 +386,9 @@ def record(objs, codec, encoding, dump_how, load_how, plan_fn, tagged, tmpdir):
         full_plain = whole[0] if whole else None
         part = reference_release(codec, data, realreads)
         realdeliv = part[1] if part else None
-    replayable = bool(well_formed and full_plain == expected_plain and realdeliv is not None)
+    # (the model replay of an execution costs more than quadratic time in the number of objects:
+    # beyond 400 objects TLC judges the recorded ids, reads and values only)
+    replayable = bool(well_formed and full_plain == expected_plain and realdeliv is not None and n <= 400)
     tr = {'nobjs': n, 'codec': codec, 'comp': 0 if codec == 'none' else 1, 'rawnl': rawnl,
           'linebytes': [len(b) for b in lines_b] if len(lines) == n else [1] * n,
           'linechars': [len(s) for s in lines] if len(lines) == n else [1] * n,
